@@ -73,3 +73,61 @@ Theorem C20_source_DecodeUnverifiedLogoutResponse_is_the_model :
   G_DecodeUnverifiedLogoutResponse inflate um enc = PVal (unverified_entry inflate EP_DecodeUnverifiedLogoutResponse um enc).
 Proof. exact G_DecodeUnverifiedLogoutResponse_is_model. Qed.
 Print Assumptions C20_source_DecodeUnverifiedLogoutResponse_is_the_model.
+
+(* H_unmarshal_view, inbound half, as a theorem over the tokenizer model (XmlTok.v).  The pre-decoder is xml.Unmarshal on the
+   raw bytes: a fresh Decoder (Strict, NO CharsetReader), Token() = RawToken + nesting check, consumption stops at the end
+   tag of the first element ([token_view]).  Validation reads the same bytes with etree (pass-through CharsetReader, whole
+   document, attributes de-duplicated: [read_tree]).  Whenever etree reads the document and the XML declaration, if any,
+   does not name an encoding other than UTF-8, the element the pre-decoder consumes is etree's duplicate-preserving root,
+   and etree's tree is its [dedupe] -- the relation the theorems above assume between [raw] and [dedupe raw]. *)
+From V Require Import XmlTok P_XmlTok P_XmlTokC20.
+Theorem C20_predecode_reads_the_same_tokens : forall s r,
+  read_tree s = Ok r ->
+  (forall toks i, raw_tokens s = Ok toks -> In (RProcInst "xml" i) toks -> encoding_ok i = true) ->
+  exists r0, token_view s = Ok r0 /\ read_root_raw s = Ok (Some r0) /\ dedupe r0 = r.
+Proof. exact predecode_view_of_validated_tree. Qed.
+Print Assumptions C20_predecode_reads_the_same_tokens.
+
+(* the same without de-duplication: the element consumed from the token prefix is the first top-level element of the
+   document etree builds from ALL tokens *)
+Theorem C20_token_view_is_first_element : forall s kids root,
+  read_doc false s = Ok kids -> first_elem kids = Some root ->
+  (forall toks i, raw_tokens s = Ok toks -> In (RProcInst "xml" i) toks -> encoding_ok i = true) ->
+  token_view s = Ok root.
+Proof. exact predecode_reads_the_same_tokens. Qed.
+Print Assumptions C20_token_view_is_first_element.
+
+(* composition with C20_predecode_agrees_when_root_unsigned: agreement of the two decoders FROM THE BYTES *)
+Theorem C20_predecode_agrees_from_bytes : forall dsig decrypt cfg now s tree r b,
+  read_tree s = Ok tree ->
+  (forall toks i, raw_tokens s = Ok toks -> In (RProcInst "xml" i) toks -> encoding_ok i = true) ->
+  (forall raw, read_root_raw s = Ok (Some raw) -> well_formed_attrs raw = true) ->
+  (cfg_skip_sig cfg = true \/ dsig tree = DMissing) ->
+  validate_response_tree dsig decrypt cfg now tree = Ok r ->
+  predecode_bytes s = Ok b ->
+  br_id b = r_id r /\ br_in_response_to b = r_in_response_to r /\ br_destination b = r_destination r /\
+  br_version b = r_version r /\ br_issuer b = r_issuer r.
+Proof. exact predecode_agrees_from_bytes. Qed.
+Print Assumptions C20_predecode_agrees_from_bytes.
+
+(* example: a document with declaration, DOCTYPE, both quote kinds, references, CDATA, CR LF, comment, PI, a duplicated
+   attribute and trailing white space *)
+Theorem C20_predecode_reads_the_same_tokens_example :
+  exists r r0, read_tree ex_doc = Ok r /\ token_view ex_doc = Ok r0 /\ dedupe r0 = r /\ r0 <> r.
+Proof. exact ex_doc_views_exist. Qed.
+Print Assumptions C20_predecode_reads_the_same_tokens_example.
+
+(* the encoding premise cannot be dropped: the two REAL readers disagree on a declaration naming another encoding (etree
+   passes the bytes through, xml.Unmarshal has no CharsetReader) -- a fidelity fact of the two libraries, confirmed by the
+   fixed cases of the xmltok stream; and the pre-decoder never looks behind the first element's end tag *)
+Theorem C20_predecode_foreign_encoding_refuted :
+  read_tree latin1_doc = Ok (Elem "" "a" [ {| at_space := ""; at_key := "ID"; at_val := "1" |} ] []) /\
+  token_view latin1_doc = Err syntax_error.
+Proof. exact predecode_foreign_encoding_refuted. Qed.
+Print Assumptions C20_predecode_foreign_encoding_refuted.
+
+Theorem C20_predecode_ignores_what_follows_the_root :
+  token_view "<a x='1'/><<<" = Ok (Elem "" "a" [ {| at_space := ""; at_key := "x"; at_val := "1" |} ] []) /\
+  (exists e, read_tree "<a x='1'/><<<" = Err e).
+Proof. exact predecode_ignores_what_follows_the_root. Qed.
+Print Assumptions C20_predecode_ignores_what_follows_the_root.
